@@ -965,6 +965,12 @@ fn gen_files(rng: &mut Rng, with_html: bool) -> Vec<(String, String)> {
   if rng.chance(1, 2) {
     files.push(("src/t.ts".into(), gen_js(rng)));
   }
+  // a file that starts with a UTF-8 byte order mark (three bytes the parser skips and that every
+  // offset still counts), now and then with CRLF line ends
+  if rng.chance(1, 3) {
+    let body = if rng.chance(1, 2) { gen_js(rng).replace('\n', "\r\n") } else { gen_js(rng) };
+    files.push(("src/bom.js".into(), format!("\u{feff}{body}")));
+  }
   if with_html {
     let h = 1 + rng.below(2);
     for i in 0..h {
@@ -1160,6 +1166,69 @@ pub fn update_cli(ctx: &Ctx, rng: &mut Rng, o: &mut Out) {
     cmd: vec!["scan".into()],
     class: "scan witness touching edits inside one document".into(),
   };
+  // a source file that is not valid UTF-8 (a latin-1 byte in a comment) next to a valid one: whatever
+  // is announced for a file must be what -U does to its BYTES, and a file nothing is announced for
+  // stays byte-for-byte what it was
+  for cmd in [
+    vec!["run", "-p", "foo($A)", "-r", "bar($A)", "-l", "js"],
+    vec!["scan", "--inline-rules", "{id: r, language: js, rule: {pattern: foo($A)}, fix: bar($A)}"],
+  ] {
+    let raw_files: [(&str, &[u8]); 3] = [
+      ("legacy.js", b"// caf\xe9 au lait\nfoo(1)\nlet s = 'na\xefve'; foo(2)\n"),
+      ("plain.js", "// café au lait\nfoo(3)\n".as_bytes()),
+      ("tail.js", b"foo(4)\n// \xff"),
+    ];
+    let (d0, d1) = (tempfile::tempdir().expect("tempdir"), tempfile::tempdir().expect("tempdir"));
+    for d in [&d0, &d1] {
+      for (rel, bytes) in raw_files {
+        std::fs::write(d.path().join(rel), bytes).unwrap();
+        set_old_mtime(&d.path().join(rel));
+      }
+    }
+    let mut a0: Vec<String> = cmd.iter().map(|s| s.to_string()).collect();
+    let mut a1 = a0.clone();
+    a0.push("--json=stream".into());
+    a1.push("-U".into());
+    let (_, out0) = run_cli(d0.path(), &a0, 30);
+    let (st1, out1) = run_cli(d1.path(), &a1, 30);
+    cases += 1;
+    let Some(announced) = parse_announced(&out0) else {
+      o.oracle("c18_update", false, json!({"fp": "json output unparsable", "class": "non-utf8 witness", "cmd": cmd}));
+      continue;
+    };
+    let mut total = 0usize;
+    for (rel, bytes) in raw_files {
+      let mut mine: Vec<&Announced> = announced.iter().filter(|a| a.file == rel).collect();
+      mine.sort_by_key(|a| (a.range.start, a.range.end));
+      let mut expect: Vec<u8> = vec![];
+      let mut at = 0usize;
+      let mut ok_ranges = true;
+      for a in &mine {
+        if a.range.start < at || a.range.end > bytes.len() {
+          ok_ranges = false;
+          break;
+        }
+        expect.extend_from_slice(&bytes[at..a.range.start]);
+        expect.extend_from_slice(a.rep.as_bytes());
+        at = a.range.end;
+        total += 1;
+      }
+      expect.extend_from_slice(&bytes[at.min(bytes.len())..]);
+      let got = std::fs::read(d1.path().join(rel)).unwrap_or_default();
+      if !ok_ranges || got != expect {
+        o.oracle("c18_update", false, json!({"fp": format!("update-all: file is not its old bytes with the announced edits applied (valid utf-8: {})", std::str::from_utf8(bytes).is_ok()),
+          "class": "non-utf8 witness", "cmd": cmd, "file": rel, "announced": mine.len(),
+          "old": String::from_utf8_lossy(bytes), "new": String::from_utf8_lossy(&got), "expected": String::from_utf8_lossy(&expect)}));
+      }
+      if mine.is_empty() && was_written(&d1.path().join(rel)) {
+        o.oracle("c18_update", false, json!({"fp": "update-all: a file without announced edits was written", "class": "non-utf8 witness", "cmd": cmd, "file": rel}));
+      }
+    }
+    if st1 == "0" && applied_line(&out1).unwrap_or(0) != total {
+      o.oracle("c18_update", false, json!({"fp": "update-all: applied count differs from the announced edits", "class": "non-utf8 witness", "cmd": cmd,
+        "applied": applied_line(&out1), "announced": total}));
+    }
+  }
   let mut projects = vec![witness, touching, touching_one_doc];
   for k in 0..n {
     projects.push(gen_project(rng, k));
